@@ -903,8 +903,10 @@ func (e *Env) call(n *ast.CallExpr) *Value {
 		ts := x.flatten(v)
 		return intLeaf(ts[0])
 	}
-	// Go function of the same package with a `pure` contract: its result is a function of the arguments
-	if fc, ok := x.eng.cs.Funcs[e.pkgPath+"::"+fname]; ok && fc.Pure && !fc.Extern {
+	// Go function with a `pure`/`purefn` contract: its result is a function of the arguments.
+	// Forms: f(args), T.M(recv, args), alias.f(args), alias.T.M(recv, args)
+	if fc := e.pureContract(n.Fun); fc != nil {
+		fname = fc.Key
 		var terms []string
 		var all []*Value
 		for _, a := range n.Args {
@@ -913,7 +915,7 @@ func (e *Env) call(n *ast.CallExpr) *Value {
 			terms = append(terms, x.flatten(v)...)
 		}
 		fn := x.eng.funcOfContract(fc)
-		if fn == nil || fn.Signature.Results().Len() != 1 {
+		if fn == nil || fn.Signature.Results().Len() < 1 {
 			e.fail("pure function %s cannot be bound", fname)
 		}
 		rt := fn.Signature.Results().At(0).Type()
@@ -1278,4 +1280,43 @@ func (e *Env) ghostField(b *Value, name string) *Value {
 			return fmt.Sprintf("(select %s %s)", x.heapArr(v, key+l.Path, l.Sort), base)
 		})
 	})
+}
+
+// pureContract resolves a call target in a contract expression to a Go function with a pure contract.
+func (e *Env) pureContract(fun ast.Expr) *FuncContract {
+	var parts []string
+	ex := fun
+	for {
+		if se, ok := ex.(*ast.SelectorExpr); ok {
+			parts = append([]string{se.Sel.Name}, parts...)
+			ex = se.X
+			continue
+		}
+		if id, ok := ex.(*ast.Ident); ok {
+			parts = append([]string{id.Name}, parts...)
+		} else {
+			return nil
+		}
+		break
+	}
+	x := e.x
+	try := func(pkg, key string) *FuncContract {
+		if fc, ok := x.eng.cs.Funcs[pkg+"::"+key]; ok && fc.Pure && !fc.Extern {
+			return fc
+		}
+		return nil
+	}
+	if fc := try(e.pkgPath, strings.Join(parts, ".")); fc != nil && len(parts) <= 2 {
+		return fc
+	}
+	if len(parts) >= 2 {
+		if _, isName := e.names[parts[0]]; !isName {
+			if p := e.importedPkg(parts[0]); p != nil {
+				if fc := try(p.Path(), strings.Join(parts[1:], ".")); fc != nil {
+					return fc
+				}
+			}
+		}
+	}
+	return nil
 }
